@@ -83,6 +83,7 @@ template <class Db> void run(const Args& a, Counters& c) {
     if (it == oracle.end()) { violation(std::string("c07:no-oracle:") + nm, "{}"); continue; }
     const OZone& oz = it->second;
     Resolver<Db> R(info, oz);
+    if (a.get("db") == "gen" && verif_over_capacity(R.proc, R.tz)) { c.add("zones_beyond_processor_capacity"); c.add("zones"); continue; }
     uint64_t ntr = 0;
     for (size_t k = 1; k < oz.e.size(); k++) {
       int64_t s = oz.e[k].start;
